@@ -404,6 +404,32 @@ def inClass (bounds : List α) (k : Nat) (x : α) : Bool :=
 /-- clause lookup_spec, as evaluated on an answer `k` of `getCategoryIndex(x)` -/
 def lookupOk (s : DD α) (x : α) (k : Nat) : Bool := inClass s.bounds k x
 
+/-! ## guards: where the comparator precision does not interfere -/
+
+/-- `resolved`: the comparator precision does not interfere with the raw class values of
+`discretizeEqualProportions`: the adjustments near the ends of the domain leave them unchanged
+and consecutive values are further apart than the precision -/
+def listEqB : List α → List α → Bool
+  | [], [] => true
+  | a :: as, b :: bs => Scalar.eqb a b && listEqB as bs
+  | _, _ => false
+
+def separated (prec : α) : List α → Bool
+  | a :: b :: t => TMap.lt prec a b && separated prec (b :: t)
+  | _ => true
+
+def resolved (par : Parent α) (s : DD α) : Bool :=
+  let raw := (eqPropRaw par s).2
+  listEqB (adjust s.dom s.prec raw) raw && separated s.prec raw
+
+/-- the classes of the equal-interval scheme are wider than the comparator precision -/
+def eqIntResolved (s : DD α) : Bool :=
+  s.n ≤ 1 || TMap.lt s.prec Scalar.zero ((s.dom.hi - s.dom.lo) / nat s.n)
+
+/-- the state is the result of `discretizeEqualProportions` (and not of the equal-interval scheme) -/
+def eqProbBranch (par : Parent α) (s : DD α) : Bool :=
+  s.scheme == 1 || (s.scheme == 3 && !(hasEqualNeighbours (s.dom.lo :: (eqPropRaw par s).1 ++ [s.dom.hi])))
+
 /-! ## the look-ups as found (before the repair) -/
 namespace Legacy
 /-- `getValueCategory`: the scan started at `bounds_[1]` -/
